@@ -39,6 +39,7 @@ type Program struct {
 	fns      sync.Map // *ssa.Function -> *FnInfo
 	consts   sync.Map // *ssa.Const -> Value
 	methods  sync.Map // methodKey -> *ssa.Function
+	pure     sync.Map // *ssa.Function -> bool
 	globals  map[*ssa.Global]int
 	init     *State
 	initMu   sync.Mutex
